@@ -198,20 +198,22 @@ where
 }
 
 // SAFETY: Since the access to the viewed components is unique, this can be sent between threads
-// safely.
+// safely, as long as the views it hands out can be sent between threads.
 unsafe impl<'a, Registry, Resources, Views, Indices> Send
     for Entries<'a, Registry, Resources, Views, Indices>
 where
     Registry: registry::Registry,
+    Views: Send,
 {
 }
 
 // SAFETY: Since the access to the viewed components is unique, this can be shared between threads
-// safely.
+// safely, as long as the views it hands out can be shared between threads.
 unsafe impl<'a, Registry, Resources, Views, Indices> Sync
     for Entries<'a, Registry, Resources, Views, Indices>
 where
     Registry: registry::Registry,
+    Views: Sync,
 {
 }
 
